@@ -5,6 +5,7 @@ CONSTANTS
   Methods <- AllMethods
   Paths <- AllPaths
   Counter <- CounterStr
+  Vers = {1, 2}
   MaxSeq = 3
   MaxUpd = 100
   Depth = 16
